@@ -105,19 +105,32 @@ pub fn schema_ty<T: FullS>(g: &mut Gen, b: &Budget, out: &mut Sink) {
             }
         }
     }
-    // C14: run-time refusal of zero-sized collections vs the ZSTSequence verdict of validation is
-    // compared through the model (`schema` line) and, directly, for empty values below
-    let empty_enc = {
-        // an encoding that fails with the ZST message for *every* value shows the refusal
+    // C14, agreement clause: whenever serialization of a value is refused because some collection has
+    // zero-sized elements, validation of the type's container reports a zero-sized sequence (all the
+    // zero-sized element types of the catalogue are empty on the wire too); and for the types of the
+    // zero-sized workload (ZST_TOP: the collection is the type itself) the converse: validation flags
+    // the root and every value is refused.
+    const ZST: &str = "err invalidData zst";
+    let top = ZST_TOP.load(std::sync::atomic::Ordering::Relaxed);
+    for _ in 0..b.values.min(4) {
         let val = T::gen(g, 0);
-        enc_obs(&val).0
-    };
-    if v.starts_with("(zstSequence") {
-        // schema says: some sequence has zero-sized elements.  Nothing to assert for arbitrary
-        // positions; top-level agreement is asserted in the zst workload.
-        let _ = empty_enc;
+        let refused = enc_obs(&val).0 == ZST;
+        if refused {
+            out.oracle("C14", v.starts_with("(zstSequence"), &case,
+                       &format!("serialization of {} is refused (zero-sized elements) but validate = {}", val_of(&val), v));
+        }
+        if top {
+            out.oracle("C14", refused, &case, &format!("zero-sized collection {} is not refused", val_of(&val)));
+        }
+    }
+    if top {
+        let want = format!("(zstSequence {})", hex(c.declaration().as_bytes()));
+        out.oracle("C14", v == want, &case, &format!("validate = {} (expected {})", v, want));
     }
 }
+
+/// set while the zero-sized workload runs: the catalogue type itself is the refused collection
+pub static ZST_TOP: std::sync::atomic::AtomicBool = std::sync::atomic::AtomicBool::new(false);
 
 /// a reader that knows nothing but the schema: walks `bs` as the definitions prescribe
 pub fn walk(c: &BorshSchemaContainer, decl: &str, bs: &[u8], pos: &mut usize, depth: u32) -> Result<(), String> {
